@@ -597,9 +597,12 @@ def copy_string_rules(prog, res):
 
     def zero_len_edge(blk, succ_):
         c = ir.strip(blk.cond_node())
-        if isinstance(c, dict) and c.get("k") == "bin" and c["op"] in (">", "!=") and ir.is_const(c["r"], 0) and \
-                is_param_path(c["l"], dst["id"]) == "nbytes":
-            return succ_.get("label") == "false"
+        if isinstance(c, dict) and c.get("k") == "bin" and c["op"] in (">", "!=", "<") :
+            l, r, op = c["l"], c["r"], c["op"]
+            if ir.is_const(l, 0) and op in ("<", "!="):      # 0 < n
+                l, r, op = r, l, {"<": ">", "!=": "!="}[op]
+            if op in (">", "!=") and ir.is_const(r, 0) and is_param_path(l, dst["id"]) == "nbytes":
+                return succ_.get("label") == "false"
         return False
     ok, w = paths.all_paths_pass(f, "entry", succ, st_nul, edge_ok=zero_len_edge)
     inst = "copy_string: terminating NUL stored at str[nbytes-1] on every success path"
